@@ -498,6 +498,13 @@ def run(ctx):
     # never publishes the seqno.
     commit_cannot_fail_halfway(ctx, "R-C03.10")
 
+    # ---- cross-cutting disciplines (rules/discipline.py)
+    from .. import discipline as D
+    # framing, tail repair and commit errors surface
+    D.error_discipline(ctx, "R-C03.14", scope=lambda f: f.startswith(("journal::", "<journal::", "batch::", "tx::write_tx::")))
+    # every item of a batch is journaled, applied and replayed
+    D.loops_visit_all(ctx, "R-C03.15", only=("batch::WriteBatch::commit", "journal::writer::Writer::write_batch", "db::Database::recover", "recovery::recover_sealed_memtables", "tx::write_tx::BaseTransaction::commit"))
+
     # ---- borrowed obligations (mechanisms owned by other properties that this property's verdict also rests on)
     # a batch whose keyspaces are flushed at different times is atomic across a crash only if its journal is kept until ALL of them have persisted it
     ctx.borrow("C10", ["R-C10.1"], "R-C03.11")
